@@ -96,6 +96,17 @@ pub fn alphabet() -> Vec<Build> {
         Build::Str("emits-then-lacking-instruction", ".device ATtiny13\nnop\nnop\njmp 0\n"),
         Build::Str("code-and-eeprom-ok", "ldi r16, 0x11\n.eseg\n.db 0x21, 0x22\n.cseg\nldi r17, 0x12\n"),
         Build::Str("messages-repeated-top-level", ".message \"x\"\n.message \"y\"\n.message \"x\"\n.warning \"z\"\n.message \"w\"\n.message \"v\"\n.message \"y\"\nnop\n"),
+        // symbols that only exist while a build is in its later phases (`pc`) read where no build
+        // of its own has set them; several entries of one table that collide (aliases of one register,
+        // constants of one value, labels of one address) - whatever is picked among them must not
+        // depend on a table's iteration order or on an earlier build
+        Build::Str("pc-in-if", "nop\n.if pc > 0\n.message \"not at the start\"\n.endif\nnop\n"),
+        Build::Str("pc-in-org", "nop\nnop\n.org pc + 4\nnop\n"),
+        Build::Str("pc-in-macro-if", "; a macro that looks at the position\n; (two comment lines)\n; (three)\n.macro at_m\n.if pc\nnop\n.endif\n.endm\nnop\nat_m\n"),
+        Build::Str("three-aliases-of-one-register", ".def tmp = r16\n.def count = r16\n.def third = r16\nldi third, 1\nmov tmp, count\n"),
+        Build::Str("aliases-of-pointer-registers", ".def xl_a = r26\n.def xl_b = r26\n.def xl_c = r26\n.def zh_a = r31\n.def zh_b = r31\nldi xl_c, 1\nldi zh_b, 2\n"),
+        Build::Str("colliding-constants-labels-variables", ".equ one_a = 1\n.equ one_b = 1\n.equ one_c = 1\n.set one_v = 1\n.set one_w = 1\nl_a:\nl_b:\nl_c: nop\n.dw l_a, l_b, l_c, one_a + one_b + one_c + one_v + one_w\n"),
+        Build::Str("redefinitions", ".equ red = 1\n.equ red = 2\n.def ra = r16\n.def ra = r17\n.set rv = 1\n.set rv = 2\nldi ra, red + rv\n"),
     ]
 }
 
